@@ -147,6 +147,27 @@ pub fn compile_obj(
     // outstanding relocations (patching in addresses, now that they're
     // available).
     // This also generates the proper .o
+    #[cfg(capy_verif)]
+    if verbosity != Verbosity::None {
+        use cranelift_module::Module as _;
+        for (id, decl) in module.declarations().get_functions() {
+            println!(
+                "; verif-func {} = {} {:?}",
+                id,
+                decl.linkage_name(id),
+                decl.linkage
+            );
+        }
+        for (id, decl) in module.declarations().get_data_objects() {
+            println!(
+                "; verif-data {} = {} {:?}",
+                id,
+                decl.linkage_name(id),
+                decl.linkage
+            );
+        }
+    }
+
     let product = module.finish();
 
     product.emit()
